@@ -5,7 +5,8 @@ Domain   P = built-in default + the curated style profiles in /verif/profiles (c
          (a) fixed universe: every C / C++ corpus file x P  (quick: default + 3 seeded profiles; thorough: all of P) with the unstable
              pairs listed individually in the ledger by (profile, path, sha256 of the file);
          (b) Hypothesis-generated C programs in random layouts x P, histories x -> o1 -> o2 -> o3;
-         (c) weaker claim: corpus files and generated programs x random whitespace / mod_ configs: the second pass must accept o1.
+         (c) weaker claim: corpus files that compile stand-alone and generated programs x random whitespace / mod_ configs: the second
+             pass must accept o1.
 Oracle   (a, b) o2 == o1 and o3 == o2 bytewise, `--check` on o1 exits 0 and prints PASS;  (c) exit status 0 of the second pass.
 """
 import hashlib
@@ -131,6 +132,7 @@ _PROFS = []
 
 def to_case(v):
     toks, lseed, cseed = v
+    cseed = family.cfg_seed(cseed)
     rng = random.Random(lseed)
     # a calm layout: single blanks, no tabs between tokens, single-line comments.  Wild original spacing is preserved by the many
     # `ignore` defaults and drifts by a column per pass (known findings C05-K2/K3, kept as regress replays); generating it would end
@@ -147,8 +149,9 @@ def to_case(v):
 
 def main(ctx):
     quick = ctx.tier == 'quick'
-    rng = random.Random(core.subseed(ctx.seed, 'c05'))
+    rng = random.Random(core.subseed(ctx.useed, 'c05'))
     _EX.update(family.exclusions(ctx))
+    family.set_tier(ctx)
     P = profiles()
     # generated programs: kr-indent / linux-indent ('}else{' needs two passes) and linux (brace removal happens on the second pass) fail on
     # 1-4 % of all generated programs and are only claimed over the corpus universe, pair by pair
@@ -170,10 +173,16 @@ def main(ctx):
         for p in use:
             cases.append(family.Case(src, lang, {}, {'kind': 'corpus', 'file': rel}, {'profile': p}))
     # (c) weaker claim on random configs
-    rc = family.random_cfgs(core.subseed(ctx.seed, 'c'), 3 if quick else 20, ('WS', 'MOD'), (0.02, 0.05, 0.1), _EX, ctx.counts)
-    for rel, lang in corpus.files():
+    rc = family.random_cfgs(core.subseed(ctx.useed, 'c'), 3 if quick else 20, ('WS', 'MOD'), (0.02, 0.05, 0.1), _EX, ctx.counts)
+    # "well-formed programs": the corpus files that compile stand-alone (many corpus inputs are fragments)
+    from checks import c01
+    cand = [f for f in corpus.files() if f[1] in ('C', 'CPP')]
+    comp = sorted((rel, lang) for rel, lang, ok in core.pmap(c01.compilable, cand, chunksize=8) if ok)
+    ctx.extra['compilable_corpus_files'] = len(comp)
+    for rel, lang in comp:
         src = corpus.read(rel)
-        cases.append(family.Case(src, lang, rng.choice(rc), {'kind': 'corpus-random-config', 'file': rel}))
+        for k in range(2 if quick else 6):
+            cases.append(family.Case(src, lang, rc[(k + len(cases)) % len(rc)], {'kind': 'corpus-random-config', 'file': rel}))
     raw = family.explore(ctx, judge, cases)
     raw += family.hyp_explore(ctx, judge, make_strategy, to_case, shards=16, examples=(150 if quick else 3000))
     family.triage(ctx, judge, raw, minimise_src=False, per_cluster=400, max_clusters=400)
